@@ -1434,7 +1434,9 @@ func isJSONObject(b []byte) (isJSONObject, isEmpty bool) {
 		return false, false
 	}
 
-	return true, len(b) == 2
+	// An object whose braces enclose only whitespace ("{ }") is empty too: treating it as non-empty makes the injected
+	// properties start with a comma.
+	return true, len(bytes.TrimSpace(b[1:len(b)-1])) == 0
 }
 
 // injectJSONPropertyFromBytes injects val under the given key into b.
